@@ -87,7 +87,8 @@ class Chain:
 
     def _prepare(self):
         r = self.rng
-        g = evogen.EvoGen(r, cpp_safe=True)
+        # every other random chain has generic records, several instantiations of one generic reached from one step included
+        g = evogen.EvoGen(r, cpp_safe=True, generics=(self.idx % 2 == 1 and not self.fixed))
         g.accepted_bias = True
         self.g = g
         os.makedirs(self.root, exist_ok=True)
@@ -102,7 +103,7 @@ class Chain:
                     for _ in range(r.choice([1, 1, 2])):
                         d, cur = g.edit(cur)
                         ds.append(d)
-                    if evogen.proto_json(cur) == evogen.proto_json(vs[-1]):
+                    if evogen.proto_json(cur, True) == evogen.proto_json(vs[-1], True):
                         continue   # the edit must be visible from the protocol
                     found = (cur, ds)
                     break
@@ -141,7 +142,7 @@ class Chain:
         if rc != 0:
             self.err, self.stage = "yardl generate failed: " + err[-1500:], "generate"
             return
-        self.protos = [evogen.proto_json(v) for v in self.versions]
+        self.protos = [evogen.proto_json(v, True) for v in self.versions]
         newest = self.protos[-1]
         main = vlib.cpp_main_versions("evo", [("P", sum(1 for s in newest if s["stream"]))], [f"v{j}" for j in range(len(self.versions) - 1)])
         self.exe = os.path.join(self.root, "xlate")
@@ -219,6 +220,40 @@ def directed_chains():
           steps_list=[s0, s0 + [["t", ["opt", P("string")], False]], [["u", P("int32"), True]] + s0 + [["t", ["opt", P("string")], False], ["m", ["map", P("string"), P("int8")], False]]])
     chain("directed:step-type-changes", f, f,
           steps_list=[s0, [["h", ["ref", "R"], False], ["s", ["ref", "R"], True], ["n", ["opt", P("int16")], False]]])
+    out += generic_chains()
+    return out
+
+
+def generic_chains():
+    """one generic record instantiated several times inside the type of one step (directly, in a vector, in a union); the definition only one of the
+    type arguments reaches changes compatibly: old streams must still be converted field by field, whichever instantiation is met first"""
+    import copy
+    P = lambda p: ["prim", p]
+    out = []
+    for arrangement in ("holder", "holder-changed-first", "union", "nested"):
+        v0 = evogen.Version()
+        v0.defs["H"] = ["rec", [["x", P("string")], ["y", P("uint8")]], "H"]
+        v0.defs["R"] = ["rec", [["a", P("int32")], ["c", P("float64")]], "R"]
+        v0.order += ["H", "R"]
+        v0.generics["G"] = ["T", [["label", P("string")], ["value", ["tparam", "T"]]]]
+        gh, gr = evogen.instantiate(v0, "G", ["ref", "H"]), evogen.instantiate(v0, "G", ["ref", "R"])
+        if arrangement == "holder":
+            v0.defs["F"] = ["rec", [["header", ["ref", gh]], ["samples", ["vec", ["ref", gr], None]]], "F"]
+        elif arrangement == "holder-changed-first":
+            v0.defs["F"] = ["rec", [["samples", ["vec", ["ref", gr], None]], ["header", ["ref", gh]]], "F"]
+        elif arrangement == "union":
+            v0.defs["F"] = ["rec", [["u", ["union", False, [["hd", ["ref", gh]], ["sm", ["ref", gr]]]]], ["o", ["opt", ["ref", gr]]]], "F"]
+        else:
+            ggr = evogen.instantiate(v0, "G", ["ref", gr])
+            v0.defs["F"] = ["rec", [["header", ["ref", gh]], ["deep", ["ref", ggr]]], "F"]
+        v0.order.append("F")
+        v0.steps = [["f", ["ref", "F"], False], ["fs", ["ref", "F"], True], ["n", P("int16"), False]]
+        v1 = copy.deepcopy(v0)
+        v1.defs["R"] = ["rec", [["c", P("float64")], ["a", P("int32")], ["e", ["opt", P("string")]]], "R"]
+        v2 = copy.deepcopy(v1)
+        v2.defs["H"] = ["rec", [["y", P("uint8")], ["x", P("string")]], "H"]
+        v2.defs["R"] = ["rec", [["a", P("int64")], ["c", P("float64")]], "R"]
+        out.append((f"directed:several-instantiations-of-a-generic-in-one-step:{arrangement}", [v0, v1, v2]))
     return out
 
 
